@@ -210,6 +210,20 @@ impl<'a> G<'a> {
         let rel = *self.rng.pick(&[0u64, 16, 1000]);
         let (preg, lreg) = (self.procs[p].reg.clone(), self.libs[l].clone());
         self.push(format!("map {preg} {lreg} {start} {} {rel}", start + len));
+        // kernel mappings (global, consulted before the process's): over the same small address pool, so that they
+        // shadow / are shadowed by process mappings of the same range
+        if self.rng.chance(1, 5) {
+            let kl = self.a_lib();
+            let ks = *self.rng.pick(&[16u64, 32, 48, 64, 100]);
+            let klen = *self.rng.pick(&[1u64, 16, 32]);
+            let klreg = self.libs[kl].clone();
+            let krel = *self.rng.pick(&[0u64, 8, 1000]);
+            self.push(format!("kmap {klreg} {ks} {} {krel}", ks + klen));
+            if self.rng.chance(1, 3) {
+                let ku = if self.rng.chance(3, 4) { ks } else { 32 };
+                self.push(format!("kunmap {ku}"));
+            }
+        }
         // remove_lib_mapping / clear_process_lib_mappings: at a start address that is (usually) mapped, so that a
         // later absolute-address frame falls into the hole and the removed library may stay unused
         if self.rng.chance(1, 4) {
@@ -918,6 +932,15 @@ pub fn fixed_cases(_tier: Tier) -> Vec<Case> {
             "clearmaps p1",
             "faddr f5 t1 ra 21 o 0",
             "unmap p1 16",
+            // a kernel mapping shadows a process mapping of the same range, then is removed
+            "map p1 l1 16 48 0",
+            "kmap l2 16 32 4",
+            "faddr f6 t1 ip 20 o 0",
+            "faddr f7 t1 ip 40 o 0",
+            "kunmap 16",
+            "faddr f8 t1 ip 20 o 0",
+            "stackframes k2 t1 f6 f7 f8",
+            "sample t1 2 k2 0",
             "stackframes k1 t1 f1 f2 f3 f4 f5",
             "sample t1 1 k1 0",
         ],
